@@ -616,10 +616,21 @@ Fixpoint enc (fuel : nat) (ovr : ovr_t) (t : ty) (v : value) {struct fuel} : res
 (* ---------------------------------------------------------------- *)
 (** ** Decoder *)
 
+(** bytes.startswith: [a] is a prefix of [b] *)
+Fixpoint is_prefix (a b : list Z) : bool :=
+  match a, b with
+  | [], _ => true
+  | x :: a', y :: b' => (x =? y) && is_prefix a' b'
+  | _ :: _, [] => false
+  end.
+
+(** the tag comparison of StandardDecodeMixin.decode: "out of data" only when
+    the data ends within the expected tag (repaired; originally whenever fewer
+    octets than the expected tag has were left) *)
 Definition match_tag (tagb data : list Z) (off : nat) : result bool :=
   let td := slice data off (off + length tagb) in
   if zlist_eqb td tagb then Ok true
-  else if negb (length td =? length tagb)%nat then Err EOutOfData
+  else if negb (length td =? length tagb)%nat && is_prefix td tagb then Err EOutOfData
   else Ok false.
 
 (** ber.detect_end_of_contents_tag *)
@@ -752,7 +763,8 @@ Fixpoint pc_decode (seg_fuel : nat) (pk : pc_kind) (tagb : list Z) (data : list 
         Ok (DVal v, en) in
     if zlist_eqb td tagb then go true
     else if zlist_eqb td (set_constructed tagb) then go false
-    else if negb (length td =? length tagb)%nat then Err EOutOfData
+    else if negb (length td =? length tagb)%nat && (is_prefix td tagb || is_prefix td (set_constructed tagb))
+    then Err EOutOfData
     else Ok (DMis, off)
   end.
 
